@@ -155,6 +155,12 @@ pub fn overlap(mut cfg: Cfg) -> Cfg {
     cfg
 }
 
+/// the quote denomination is the contract's own base denomination (unusual, but nothing forbids it)
+pub fn quote_is_base(mut cfg: Cfg) -> Cfg {
+    cfg.quotes = vec!["base".into()];
+    cfg
+}
+
 /// two convertible and two quote denominations
 pub fn multi(mut cfg: Cfg) -> Cfg {
     cfg.convs = vec!["conv".into(), "conv2".into()];
@@ -340,6 +346,9 @@ fn ledger_scenarios(tier: Tier, extra_probes: &dyn Fn(&Cfg, &Menu) -> Vec<Act>) 
     mk("B11/p14/large-amounts", Cfg::new(14, 300_000_000_000_000, ("0.25", "0.25"), "R0"), menu_large(1, 1), &mut v);
     mk("B11/multi-denom/nrnur", with_markers(multi(Cfg::new(0, 2, ("0.25", "0.25"), "R0")), "nrnur"), menu_multi(1, 1), &mut v);
     mk("B11/base-also-convertible", overlap(Cfg::new(0, 2, ("0.25", "0.25"), "R0")), menu_p1(1, 1), &mut v);
+    mk("B11/quote-is-base", quote_is_base(Cfg::new(0, 2, ("0.25", "0.25"), "R0")), menu_p1(1, 1), &mut v);
+    mk("B11/P1/F1/R5", Cfg::new(0, 2, ("0.25", "0.25"), "R5"), menu_p1(1, 1), &mut v);
+    mk("B11/P1/F1/R6", Cfg::new(0, 2, ("0.25", "0.25"), "R6"), menu_p1(1, 1), &mut v);
     {
         // upgrades in the middle of a history, and a book carried over from an old version
         let cfg = Cfg::new(0, 2, ("0.25", "0.25"), "R0");
@@ -526,7 +535,7 @@ pub fn plan(prop: &str, tier: Tier) -> Plan {
                 mk("B12/P1big/F2/R4", Cfg::new(0, 2, ("0.1", "0.1"), "R4"), menu_p1_big(1, 2), &mut v);
                 mk("B12/P1/third/R0", Cfg::new(0, 2, ("0.333", "0.333"), "R0"), Menu { sizes: vec![2, 4, 6], match_sizes: vec![1, 2, 3, 4, 5, 6], ..menu_p1(1, 2) }, &mut v);
                 mk("B21/P1/F1/R0/rur", with_markers(Cfg::new(0, 2, ("0.25", "0.25"), "R0"), "rur"), menu_p1(2, 1), &mut v);
-                v.push(with_legacy_seed(scen("B12/P2/F1/R0", Cfg::new(1, 10, ("0.25", "0.25"), "R0"), menu_p2s(1, 2), vec![])));
+                v.push(with_legacy_seed(scen("B11/P2/F1/R0", Cfg::new(1, 10, ("0.25", "0.25"), "R0"), menu_p2(1, 1), vec![])));
                 v.push(with_legacy_seed(scen("B21/P1/F1/R0", Cfg::new(0, 2, ("0.25", "0.25"), "R0"), menu_p1(2, 1), vec![])));
             }
             Plan { scenarios: v, hooks: vec![HookKind::Exit] }
@@ -692,7 +701,7 @@ pub fn plan(prop: &str, tier: Tier) -> Plan {
             v.push(scen("B11/P1/rates-0.250-0.2500", Cfg::new(0, 2, ("0.250", "0.2500"), "R0"), Menu { prices: vec!["2"], ..menu_p1(1, 1) }, vec![]));
             if th {
                 v.push(scen("B22/P1/F1/R0", Cfg::new(0, 2, ("0.25", "0.25"), "R0"), menu_p1(2, 2), vec![]));
-                v.push(with_legacy_seed(scen("B12/P2/F1/R0", Cfg::new(1, 10, ("0.25", "0.25"), "R0"), menu_p2s(1, 2), vec![])));
+                v.push(with_legacy_seed(scen("B11/P2/F1/R0", Cfg::new(1, 10, ("0.25", "0.25"), "R0"), menu_p2(1, 1), vec![])));
                 v.push(scen("B21/P1/F1/R4/rur", with_markers(Cfg::new(0, 2, ("0.25", "0.25"), "R4"), "rur"), menu_p1(2, 1), vec![]));
             }
             Plan { scenarios: v, hooks: vec![HookKind::Query] }
